@@ -82,6 +82,8 @@ def coerce(st, v, kind):
         if isinstance(v, VEmptyMap):
             return v.to(kind.key, kind.val)
         return v
+    if isinstance(kind, TupleKey) and isinstance(v, VTuple):
+        return kind.pack([coerce(st, x, k) for x, (_, k) in zip(v.items, kind.fields)])
     if kind == FLOAT:
         if isinstance(v, VInt):
             return VFloat.fin(z3.ToReal(v.t))
